@@ -349,6 +349,113 @@ def work_trees(unit):
     return {"stats": dict(stats), "findings": cap_findings(findings), "n": n, "samples": samples, "wall": time.time() - t0}
 
 
+def pipeline_cases(max_leaves):
+    """(target indexes, tree) for the far-end meaning sweep: every shape and operator assignment; leaves are
+    distinct tensors with indexes from {(), (i), (j)} (every combination up to 3 leaves, {(), (i)} at 4 leaves, the
+    two alternating scalar/vector patterns beyond), one literal variant per tree position up to 3 leaves."""
+    out = []
+    for nl in range(1, max_leaves + 1):
+        if nl <= 3:
+            idx_choices = list(itertools.product([(), ("i",), ("j",)], repeat=nl))
+        elif nl == 4:
+            idx_choices = list(itertools.product([(), ("i",)], repeat=nl))
+        else:
+            idx_choices = [tuple(() if k % 2 == par else ("i",) for k in range(nl)) for par in (0, 1)]
+        for shape in tree_shapes(nl):
+            for idxs in idx_choices:
+                leafsets = [[("t", f"t{k}", idx) for k, idx in enumerate(idxs)]]
+                if 2 <= nl <= 3:
+                    for k in range(nl):
+                        ls = list(leafsets[0])
+                        ls[k] = ("n", "2")
+                        leafsets.append(ls)
+                for leaves in leafsets:
+                    for ops in itertools.product("+-*", repeat=nl - 1):
+                        tree = fill(shape, leaves, ops)
+                        for target in ((), ("i",)):
+                            out.append((target, tree))
+    return out
+
+
+def work_pipeline(unit):
+    """The conventional meaning of the text, observed at the far end of the compiler: with every dimension equal
+    to 1 a contraction sums one term, so the generated evaluate kernel (parse -> desugar -> iteration graph -> IR,
+    run on the abstract machine over polynomials) must compute exactly what Python's arithmetic computes from the
+    same tokens."""
+    from returns.result import Success
+
+    from tensora.expression import parse_assignment
+    from tensora.format import Format, Mode
+    from tensora.problem import Problem
+
+    from .. import kx, space
+    from ..am import Fault, Machine
+    from ..tensors import am_decode
+
+    t0 = time.time()
+    stats = Counter()
+    findings = []
+    samples = []
+    n = 0
+    primes = [Fraction(p) for p in (2, 3, 5, 7, 11, 13, 17, 19, 23)]
+    cases = pipeline_cases(unit["max_leaves"])[unit["part"] :: unit["parts"]]
+    DIM = {"i": 1, "j": 1}
+    for target, tree in cases:
+        toks = tokens(tree)
+        text = f"T({','.join(target)}) = " + " ".join(toks)
+        r = parse_assignment(text)
+        if not isinstance(r, Success):
+            stats["pipeline: assignment rejected (validity rules)"] += 1
+            continue
+        asg = r.unwrap()
+        prog = ("T", tuple(target), tree)
+        if not any(l[0] == "t" for l in space.tree_leaves(tree)):
+            continue
+        orders = space.tensor_orders(prog)
+        fmts = {nm: Format((Mode.dense,) * o, tuple(range(o))) for nm, o in orders.items()}
+        n += 1
+        status, module = kx.generate(Problem(asg, fmts), kx.KINDS3)
+        if status != "ok":
+            stats[f"pipeline: generation {status} ({type(module).__name__})"] += 1
+            continue
+        kc = kx.KernelCase(prog, list(orders), fmts, module)
+        joint = space.full_joint_structure(prog, fmts, DIM)
+        vals, env = kx.make_env(joint)
+        m = Machine(generic=True, budget=20000)
+        case = {"text": text, "tree": tree, "target": list(target), "stage": "evaluate kernel, all dimensions 1"}
+        try:
+            args, ts_out, odims = kc.build_args(m, kc.fns["evaluate"], DIM, joint, vals)
+            m.call(kc.fns["evaluate"], args)
+            stored, problems, _image = am_decode(ts_out, kc.ofmt, odims)
+        except Fault as f:
+            stats[f"pipeline: kernel fault {f.kind} (C05's business)"] += 1
+            continue
+        if problems or len(stored) != 1:
+            stats["pipeline: malformed output (C02's business)"] += 1
+            continue
+        point = {}
+        pyenv = {}
+        k = 0
+        for l in space.tree_leaves(tree):
+            if l[0] == "t":
+                point[kx.var_name(l[1], (0,) * len(l[2]))] = primes[k]
+                pyenv[(l[1], tuple(l[2]))] = primes[k]
+                k += 1
+        got = next(iter(stored.values()))
+        got = got.subst(point) if hasattr(got, "subst") else Fraction(got)
+        want = python_value(toks, pyenv)
+        if got != want:
+            findings.append(_f("pipeline-meaning", f"{text!r} with every dimension 1 computes {got}, arithmetic says "
+                               f"{want}", case))
+        else:
+            stats["pipeline meanings compared"] += 1
+            if len(samples) < 1 and len(toks) > 7:
+                samples.append({"sentence": text, "kernel value": str(got), "dimensions": "all 1"})
+        if too_many(findings):
+            break
+    return {"stats": dict(stats), "findings": cap_findings(findings), "n": n, "samples": samples, "wall": time.time() - t0}
+
+
 # ------------------------------------------------------------------- validation & probes
 
 
@@ -537,6 +644,8 @@ def run(tier, seed):
     for lo in range(nshapes):
         units.append(("work_trees", {"lo": lo, "hi": lo + 1, "max_leaves": max_leaves, "literals": lits,
                                      "redundant": True, "blanks": ["", " ", "  "]}))
+    for k in range(32):
+        units.append(("work_pipeline", {"part": k, "parts": 32, "max_leaves": 5 if tier == "quick" else 6}))
     units.append(("work_misc", {"max_format_order": 4 if tier == "quick" else 5}))
     for k in range(16):
         units.append(("work_validity", {"part": k, "parts": 16}))
